@@ -931,6 +931,38 @@ def map_receiving():
     return out
 
 
+def map_pair_values(rng, n):
+    """histories whose values are pairs <A, B> (set_pv): pairs compare by A alone, so a key is set again and again to values
+    that compare EQUAL to the stored one and differ in content - the latest one must be what get, get_values, get_pairs and the
+    iterator show, in the original and in a copy.  No has_value here (it asks by comparison, the ideal dictionary by content)."""
+    out = [['set_pv:k:a:one', 'set_pv:k:a:two', 'get:k', 'get_values', 'get_pairs', 'iterate', 'count'],
+           ['set_pv:a:t:x', 'set_pv:b:t:y', 'set_pv:a:t:w', 'get:a', 'get:b', 'fork', 'set_pv:b:t:v', 'get:b', 'get_values', 'swap', 'get_values'],
+           ['set:a:x', 'set_pv:a:x:q', 'get:a', 'set_pv:a:x:r', 'get:a', 'set:a:x', 'get:a', 'remove:a', 'get:a', 'count'],
+           ['set_pv:c:m:p', 'set_pv:a:m:p', 'set_pv:b:m:p', 'set_pv:a:m:s', 'mutv:u', 'get:a', 'set_pv:c:m:t', 'delv', 'get:c', 'iterate']]
+    keys = ['a', 'b', 'c', 'd', 'k']
+    for _ in range(n):
+        ops = []
+        for _ in range(rng.randint(3, 14)):
+            r = rng.random()
+            k = rng.choice(keys)
+            if r < 0.5:
+                ops.append('set_pv:%s:%s:%s' % (k, rng.choice(['t', 't', 'u']), rng.choice(['p', 'q', 'r', 's', 'pp', 'w'])))
+            elif r < 0.6:
+                ops.append('set:%s:%s' % (k, rng.choice(['t', 'x'])))
+            elif r < 0.8:
+                ops.append('get:' + k)
+            elif r < 0.86:
+                ops.append('remove:' + k)
+            else:
+                o = rng.choice(['get_values', 'get_pairs', 'iterate', 'count', 'fork', 'swap'])
+                if o == 'fork' and 'fork' in ops:
+                    o = 'swap'
+                ops.append(o)
+        ops += ['get_pairs', 'count']
+        out.append(ops)
+    return out
+
+
 MAP_SYMBOLS = ['set:a:x', 'set:a:y', 'set:b:x', 'set:c:z', 'remove:a', 'remove:b', 'remove:c', 'get:a', 'has_value:x',
                'mutk:c', 'delv']
 # second alphabet: the composites
